@@ -260,9 +260,10 @@ def parseExprLoop {S E : Type} (P : PLang) (B : Builder S E) (inputs : List E) (
   | 0, _, _ => .error (.internal "fuel")
   | _, s, [] => .ok s
   | n+1, s, tok :: rest =>
-    if tok == "#" then parseExprLoop P B inputs defaults n { s with comment := true, prevTok := tok } rest
-    else if tok == "\n" then parseExprLoop P B inputs defaults n { s with comment := false, prevTok := tok } rest
-    else if s.comment then parseExprLoop P B inputs defaults n { s with prevTok := tok } rest
+    -- layout and comments do not count as "the previous token" (repair of defect D31: `-` followed by a line break and `: T`)
+    if tok == "#" then parseExprLoop P B inputs defaults n { s with comment := true } rest
+    else if tok == "\n" then parseExprLoop P B inputs defaults n { s with comment := false } rest
+    else if s.comment then parseExprLoop P B inputs defaults n s rest
     else if tok == "(" || tok == "," || tok == ")" then
       -- `if token in "),"`: pop y; if y: pop x; push App(x, y) if x else y
       let r : Except PErr (S × List (Option E)) :=
